@@ -210,15 +210,17 @@ fn parse_week_date_components(s: &str) -> Option<(i32, u32, u32)> {
     }
 
     if s.len() == 8 && s.chars().nth(4) == Some('W') {
-        let year: i32 = s[0..4].parse().ok()?;
-        let week: u32 = s[5..7].parse().ok()?;
-        let day: u32 = s[7..8].parse().ok()?;
+        // `get`, not indexing: the text may hold multi-byte characters (any string reaches this parser
+        // through string comparison), and a range inside one would panic.
+        let year: i32 = s.get(0..4)?.parse().ok()?;
+        let week: u32 = s.get(5..7)?.parse().ok()?;
+        let day: u32 = s.get(7..8)?.parse().ok()?;
         return Some((year, week, day));
     }
 
     if s.len() == 7 && s.chars().nth(4) == Some('W') {
-        let year: i32 = s[0..4].parse().ok()?;
-        let week: u32 = s[5..7].parse().ok()?;
+        let year: i32 = s.get(0..4)?.parse().ok()?;
+        let week: u32 = s.get(5..7)?.parse().ok()?;
         return Some((year, week, 1));
     }
 
